@@ -49,6 +49,11 @@ CLAIMS = {
    design_ref="DESIGN.md section 5 C12, section 8",
    note=COMMON_NOTE + "Same file-system model as C01. Roll-back is promised only when the lock was obtained. General interleavings of several mbox writers rest on flock plus one scheduled interleaving; no interleaving theorem yet. myctime's date is opaque.",
    technique="Coq proof (event-prefix invariant for the maildir writer, list-level round trip for the mbox reader) + trace refinement of the real qmail-local under an LD_PRELOAD interposer"),
+ "C09": dict(category="proof",
+   text="Theorems for every byte stream a server can send (exhaustion = disconnect) and any number of recipients: the message report is K only if greeting 220, HELO 250, MAIL < 400, some RCPT < 400, DATA < 400, the whole message was sent and the reply after the final dot is < 400; per-recipient reports are the classes (r <400, s 4xx, h >=500) of the consecutive RCPT replies in argument order; any disconnect yields Z, flagged possible duplicate exactly when it happens while the final reply is awaited; bad greeting is temporary, MAIL 5xx permanent / 4xx temporary. For every exit status and output, qmail-rspawn's report() starts with K, Z or D and K only for a clean exit, no leading h/s, first K/Z/D segment K; crash -> Z, 111 -> Z, other non-zero -> D. Tied on every run to the real qmail-remote against a scripted loopback server (systematic reply forms per phase, cut replies, 1-3 recipients, partial-line messages) with an independent classifier as oracle, and to the real report() on all outputs over {r,h,s,K,Z,D,x,NUL} to length 4/5.",
+   design_ref="DESIGN.md section 5 C09, section 8",
+   note=COMMON_NOTE + "TCP/DNS/tcpto/timeouts outside the model (a stall is the disconnect it ends in). DATA 5xx/4xx and final 5xx/4xx classes are checked by the oracle on the real client; only MAIL and greeting classes are separate theorems besides K_sound.",
+   technique="Coq proof (case analysis of the phase sequence, induction over the recipient loop) + differential tie against a scripted SMTP server and a function harness for report()"),
 }
 
 REASON_PENDING = "not yet claimed: model/correspondence for this property is still being built (DESIGN.md section 7); no check is registered for it"
